@@ -1,0 +1,20 @@
+//go:build verif
+// +build verif
+
+package stateless
+
+import "github.com/ipfs/ipfs-cluster/pintracker/optracker"
+
+// VerifGate is set by the verification harness (build tag "verif"). The
+// operation worker calls it after the IPFS call of an operation has returned
+// ("returned": before the result is recorded in the operation) and before the
+// finished operation is removed from the operation tracker ("clean"). It may
+// block there to force a particular interleaving. Nil, and never called,
+// otherwise.
+var VerifGate func(point string, op *optracker.Operation)
+
+func verifGate(point string, op *optracker.Operation) {
+	if f := VerifGate; f != nil {
+		f(point, op)
+	}
+}
